@@ -176,6 +176,12 @@ impl SimFd {
     }
 }
 
+/// Hard errors a real sink meets: ENOSPC, EIO, EPIPE, EDQUOT, EFBIG — which one is a function of the call index,
+/// so a plan stays plain data and a sticky error repeats itself.
+const HARD_ERRNOS: [i32; 5] = [28, 5, 32, 122, 27];
+fn hard_error_for(call: usize) -> io::Error {
+    io::Error::from_raw_os_error(HARD_ERRNOS[call % HARD_ERRNOS.len()])
+}
 fn hard_error() -> io::Error {
     io::Error::from_raw_os_error(28) // ENOSPC
 }
@@ -228,7 +234,7 @@ impl io::Write for SimFd {
                 if st.keep_log {
                     st.log.push((offset, buf.len(), -2));
                 }
-                return Err(hard_error());
+                return Err(hard_error_for(call));
             }
             Some(WAct::Short(n)) => {
                 if buf.len() > 1 {
